@@ -842,7 +842,18 @@ func (x *Ctx) loopDigitBound(acc *ssa.Phi) int {
 			continue
 		}
 		be, ok := iff.Cond.(*ssa.BinOp)
-		if !ok || be.Op != token.EQL {
+		if !ok {
+			continue
+		}
+		// the edge on which the count has reached N: `== N` / `>= N` true edge, `!= N` / `< N` false edge
+		leave := -1
+		switch be.Op {
+		case token.EQL, token.GEQ:
+			leave = 0
+		case token.NEQ, token.LSS:
+			leave = 1
+		}
+		if leave < 0 {
 			continue
 		}
 		c, okc := constBig(be.Y)
@@ -882,7 +893,7 @@ func (x *Ctx) loopDigitBound(acc *ssa.Phi) int {
 		if !entryIsStart {
 			continue
 		}
-		if !inLoop(b.Succs[0]) {
+		if !inLoop(b.Succs[leave]) {
 			return int(c.Int64())
 		}
 	}
